@@ -8,13 +8,21 @@ ENGINES = [
      "kind_free_text": "SymPy results of the real SymbolicDim/parser code are translated to z3 Real/Int terms and proved equal to a reference semantics for all positive integer bindings"},
     {"name": "symnp+shadow", "path": "engine/symnp.py, engine/shadow.py", "serves_properties": ["C04"],
      "kind_free_text": "the current source of _type_casting/_core/serde is recompiled into shadow modules whose numpy/mmap/open/os globals are shims over z3 bit-vector cells and z3 arrays; the real tensor code then runs on fully symbolic payloads, offsets and file contents"},
-    {"name": "hist (on zsym)", "path": "engine/hist.py, engine/irlib.py", "serves_properties": ["C01", "C06", "C11", "C12"],
+    {"name": "hist (on zsym)", "path": "engine/hist.py, engine/irlib.py", "serves_properties": ["C01", "C06", "C11", "C12", "C20"],
      "kind_free_text": "bounded edit histories over the real IR classes with symbolic operand selectors and payload ints; z3 decides path feasibility, every feasible path is explored and its witness re-executed natively (guard against proxy intolerance)"},
     {"name": "zsym", "path": "engine/zsym.py", "serves_properties": ["C04", "C07", "C10", "C15"],
      "kind_free_text": "execution of the real functions on z3 Int/Real/String proxies with re-execution DFS over branch decisions; property = SMT query per path"},
 ]
 NOT_APPLICABLE = {}
 CHECKS = {
+    "C20": dict(
+        engine="hist (on zsym)", level="other", design_ref="DESIGN.md section 4 / C20",
+        technique="symbolic execution (zsym/z3) of bounded histories run plainly, inside nested journals (with/without exception) and under an independent completion counter; differential oracle",
+        text=("Every operation of the C01 alphabet with symbolic operands is executed without a journal, inside 1-3 nested journals (optionally leaving by exception) and under an independent wrapper that counts completed "
+              "instrumented calls: snapshot and outcomes must be identical, the number of entries must equal the number of completed instrumented operations, after every exit each patched class attribute must be the identical "
+              "object it was at that level's entry (read from the classes themselves), entries must not keep objects alive."),
+        note="Trusted: z3; proxies cross-checked per path; the set of instrumented attributes is taken from journaling._wrappers.get_original_methods() (names only). One top-level call per journal; hooks are not covered.",
+    ),
     "C15": dict(
         engine="zsym (z3 strings) + hist", level="other", design_ref="DESIGN.md section 4 / C15",
         technique="symbolic execution (zsym): name-authority add/remove/re-add histories with explicit names as arbitrary z3 strings; NameFixPass and rename_values over symbolic name-slot assignments with per-path native re-execution",
